@@ -17,8 +17,18 @@ import (
 // unknown and keeps both edges, so "unreachable in the scenario" is sound for the real program whenever the
 // atoms are stable while the function runs (each rule says why its atoms are).
 
-// Scenario builds the oracle for one function body (the oracle needs that body's type information).
-type Scenario func(info *types.Info, body ast.Node) func(e ast.Expr) byte
+// Scenario builds the oracle for one function body (the oracle needs that body's type information and,
+// for atoms whose value depends on what the path has passed, the facts the search carries: fg.curFacts).
+// Mark, if set, lets the scenario record such path facts at block nodes.
+type Scenario struct {
+	Atom func(fg *FlowGraph) func(e ast.Expr) byte
+	Mark func(fg *FlowGraph) func(n ast.Node, facts map[identFact]bool) map[identFact]bool
+}
+
+// atomsOnly: a scenario without path marks.
+func atomsOnly(f func(info *types.Info, body ast.Node) func(e ast.Expr) byte) Scenario {
+	return Scenario{Atom: func(fg *FlowGraph) func(e ast.Expr) byte { return f(fg.Info, fg.Body) }}
+}
 
 // zeroness of an expression as a result: 'Z' the zero value, 'N' never the zero value, '?' unknown
 func (c *Ctx) resultZeroness(info *types.Info, e ast.Expr) byte {
@@ -106,7 +116,7 @@ func (c *Ctx) scenCallResult(fi *FuncInfo, sc Scenario, depth int) byte {
 	fg := newFlowGraph(info, fi.Decl.Body)
 	named := sig.Results().At(0).Name() != ""
 	seenZ, seenN, seenU := false, false, false
-	fg.Reach(PathQuery{Correlate: true, Atom: c.withBoolHelpers(sc, depth-1)(info, fi.Decl.Body), Gen: c.scenGen(info, fi.Decl.Body, sc, depth-1), Target: func(l Loc) bool {
+	fg.Reach(PathQuery{Correlate: true, Atom: c.withBoolHelpers(sc, depth-1).Atom(fg), Gen: c.scenGen(fg, sc, depth-1), Target: func(l Loc) bool {
 		r, ok := l.Node.(*ast.ReturnStmt)
 		if !ok {
 			return false
@@ -136,9 +146,17 @@ func (c *Ctx) scenCallResult(fi *FuncInfo, sc Scenario, depth int) byte {
 }
 
 // scenGen: `v := helper(...)` / `v = helper(...)` gives v the zeroness of the helper's result under the scenario.
-func (c *Ctx) scenGen(info *types.Info, body ast.Node, sc Scenario, depth int) func(n ast.Node, facts map[identFact]bool) map[identFact]bool {
-	atom := sc(info, body)
+func (c *Ctx) scenGen(fg *FlowGraph, sc Scenario, depth int) func(n ast.Node, facts map[identFact]bool) map[identFact]bool {
+	info := fg.Info
+	atom := sc.Atom(fg)
+	var mark func(n ast.Node, facts map[identFact]bool) map[identFact]bool
+	if sc.Mark != nil {
+		mark = sc.Mark(fg)
+	}
 	return func(n ast.Node, facts map[identFact]bool) map[identFact]bool {
+		if mark != nil {
+			facts = mark(n, facts)
+		}
 		as, ok := n.(*ast.AssignStmt)
 		if ok && len(as.Lhs) == 2 && len(as.Rhs) == 1 {
 			// ok, _ := f(...): a call whose first result is a boolean the scenario decides
@@ -207,7 +225,7 @@ func (c *Ctx) scenBoolResult(fi *FuncInfo, sc Scenario, depth int) byte {
 	fg := newFlowGraph(info, fi.Decl.Body)
 	seen := map[byte]bool{}
 	wsc := c.withBoolHelpers(sc, depth)
-	fg.Reach(PathQuery{Correlate: true, Atom: wsc(info, fi.Decl.Body), Gen: c.scenGen(info, fi.Decl.Body, sc, depth), Visit: func(l Loc, facts map[identFact]bool) {
+	fg.Reach(PathQuery{Correlate: true, Atom: wsc.Atom(fg), Gen: c.scenGen(fg, sc, depth), Visit: func(l Loc, facts map[identFact]bool) {
 		if r, ok := l.Node.(*ast.ReturnStmt); ok {
 			if len(r.Results) != 1 {
 				seen['?'] = true
@@ -229,8 +247,10 @@ func (c *Ctx) scenBoolResult(fi *FuncInfo, sc Scenario, depth int) byte {
 // decide is evaluated in the callee under the same scenario.
 func (c *Ctx) withBoolHelpers(sc Scenario, depth int) Scenario {
 	cache := map[*types.Func]byte{}
-	return func(info *types.Info, body ast.Node) func(e ast.Expr) byte {
-		base := sc(info, body)
+	out := sc
+	out.Atom = func(fg *FlowGraph) func(e ast.Expr) byte {
+		info := fg.Info
+		base := sc.Atom(fg)
 		return func(e ast.Expr) byte {
 			if v := base(e); v == '1' || v == '0' {
 				return v
@@ -255,10 +275,11 @@ func (c *Ctx) withBoolHelpers(sc Scenario, depth int) Scenario {
 			return v
 		}
 	}
+	return out
 }
 
 // scenReach: can a node satisfying target be reached from `from` (the entry when invalid) in the scenario
 // without passing a node satisfying avoid? Returns the witness path.
 func (c *Ctx) scenReach(fg *FlowGraph, body ast.Node, sc Scenario, from Loc, target, avoid func(Loc) bool) (bool, []ast.Node) {
-	return fg.Reach(PathQuery{From: from, Correlate: true, Atom: c.withBoolHelpers(sc, 2)(fg.Info, body), Gen: c.scenGen(fg.Info, body, sc, 2), Target: target, Avoid: avoid})
+	return fg.Reach(PathQuery{From: from, Correlate: true, Atom: c.withBoolHelpers(sc, 2).Atom(fg), Gen: c.scenGen(fg, sc, 2), Target: target, Avoid: avoid})
 }
